@@ -35,12 +35,14 @@ theorem gen_filterClasses : Gen.filterClasses.eraseDups = ["Assignment", "Block"
 /-- node / value classes every converter dispatches on (both copies) — what `nodeEntry`, `convertValue`,
 `mdNode`, `mdValue`, `mdValueCli` transcribe -/
 theorem gen_converterDispatch : Gen.converterDispatch =
-    [("mcp._ast_to_dict", ["Assignment", "Block"]), ("mcp._convert_value", ["LiteralZoneValue", "HolographicValue", "ListValue", "InlineMap", "dict"]),
-     ("mcp._convert_block", ["Assignment", "Block"]), ("mcp._format_markdown_value", ["LiteralZoneValue", "ListValue", "InlineMap"]),
-     ("mcp._ast_to_markdown", ["Assignment", "Block"]), ("mcp._block_to_markdown", ["Assignment", "Block"]),
-     ("cli._ast_to_dict", ["Assignment", "Block"]), ("cli._ast_to_dict.convert_value", ["HolographicValue", "ListValue", "InlineMap", "dict"]),
-     ("cli._ast_to_dict.convert_block", ["Assignment", "Block"]), ("cli._ast_to_markdown", ["Assignment", "Block"]),
-     ("cli._block_to_markdown", ["Assignment", "Block"])] := by
+    [("mcp._ast_to_dict", ["Assignment", "Block", "Section"]),
+     ("mcp._convert_value", ["LiteralZoneValue", "HolographicValue", "ListValue", "InlineMap", "dict"]),
+     ("mcp._convert_block", ["Assignment", "Block", "Section"]),
+     ("mcp._format_markdown_value", ["LiteralZoneValue", "ListValue", "InlineMap", "HolographicValue"]),
+     ("mcp._ast_to_markdown", ["Assignment", "Block", "Section"]), ("mcp._block_to_markdown", ["Assignment", "Block", "Section"]),
+     ("cli._ast_to_dict", ["Assignment", "Block", "Section"]), ("cli._ast_to_dict.convert_value", ["HolographicValue", "ListValue", "InlineMap", "dict"]),
+     ("cli._ast_to_dict.convert_block", ["Assignment", "Block", "Section"]), ("cli._ast_to_markdown", ["Assignment", "Block", "Section"]),
+     ("cli._block_to_markdown", ["Assignment", "Block", "Section"])] := by
   decide
 
 /-- every format of `octave_eject` reports `result.lossy` and renders `result.filtered_doc` (or `result.output`,
@@ -87,12 +89,12 @@ theorem C14_no_invention (zones : Bool) (mode : Str) (d : Doc) :
   obtain ⟨s, hs, rfl⟩ := List.mem_map.mp h1
   exact ⟨s, (C14_no_invention_project mode d).subset hs, rfl⟩
 
-/-- markdown, under the class guards (without them the scan attributes a bullet to the wrong sub-heading,
-see `C14_KF_md_reparent`): the leaves read back are exactly the rendered document's leaves. -/
-theorem C14_no_invention_markdown_partial (fmt : Value → Str) (d : Doc)
-    (hs : noSections d = true) (ho : mdOrdered d = true) :
+/-- markdown, under the class guard (without it the scan attributes a bullet to the wrong sub-heading,
+see `C14_KF_md_reparent`): the leaves read back are exactly the rendered document's leaves — sections included
+(since fix ea3edea a section marker is a heading like a block). -/
+theorem C14_no_invention_markdown_partial (fmt : Value → Str) (d : Doc) (ho : mdOrdered d = true) :
     mdLeaves (mdLines fmt d) = (Doc.leaves d).map (mdLeaf fmt []) :=
-  mdLeaves_eq fmt d hs ho
+  mdLeaves_eq fmt d ho
 
 /-! ## Modes -/
 
@@ -143,21 +145,21 @@ theorem C14_project_honest (mode : Str) (d : Doc) (h : (project mode d).lossy = 
 /-! ## Honest lossy flag -/
 
 /-- `C14_lossy_honest` is FALSE today without guards (see the `C14_KF_*` theorems below).  Under
-`noSections ∧ noDuplicateSiblings ∧ mdOrdered` it holds for every mode string: when `lossy = false`, the JSON/YAML
+`noDuplicateSiblings ∧ mdOrdered` (the `noSections` guard is gone with fix ea3edea) it holds for every mode string: when `lossy = false`, the JSON/YAML
 tree (both copies) and the markdown scan contain every leaf of the source, nothing else, at the same paths.
 (Equivalently: a rendering that lacks a leaf ⇒ `lossy = true`.)  The OCTAVE rendering is `emit` of the same
 projected document; that `parse (emit d)` has the leaves of `d` is property C01/C02 (text engine). -/
 theorem C14_lossy_honest_partial (zones : Bool) (fmt : Value → Str) (mode : Str) (d : Doc)
-    (hs : noSections d = true) (hd : noDupSiblings d = true) (ho : mdOrdered d = true)
+    (hd : noDupSiblings d = true) (ho : mdOrdered d = true)
     (hl : (project mode d).lossy = false) :
     (docTree zones (project mode d).doc).leaves = (Doc.leaves d).map (convLeaf zones)
       ∧ mdLeaves (mdLines fmt (project mode d).doc) = (Doc.leaves d).map (mdLeaf fmt []) := by
   rw [C14_project_honest mode d hl]
-  exact ⟨docTree_leaves_eq zones d hs hd, mdLeaves_eq fmt d hs ho⟩
+  exact ⟨docTree_leaves_eq zones d hd, mdLeaves_eq fmt d ho⟩
 
 /-- contrapositive form, as the property states it -/
 theorem C14_missing_leaf_means_lossy_partial (zones : Bool) (mode : Str) (d : Doc)
-    (hs : noSections d = true) (hd : noDupSiblings d = true)
+    (hd : noDupSiblings d = true)
     (hm : (docTree zones (project mode d).doc).leaves ≠ (Doc.leaves d).map (convLeaf zones)) :
     (project mode d).lossy = true := by
   cases hl : (project mode d).lossy with
@@ -165,7 +167,7 @@ theorem C14_missing_leaf_means_lossy_partial (zones : Bool) (mode : Str) (d : Do
   | false =>
     exfalso; apply hm
     rw [C14_project_honest mode d hl]
-    exact docTree_leaves_eq zones d hs hd
+    exact docTree_leaves_eq zones d hd
 
 /-- and `json.dumps` never raises on the MCP conversion — no guard left (F33 and the json/yaml half of F52 are fixed in /repo) -/
 theorem C14_jsonable (d : Doc) : jsonable (astToDict true d) = true :=
@@ -178,35 +180,34 @@ reader/emitter round trip, property C01/C02, as an explicit hypothesis) the OCTA
 leaves of `d'`: same paths, each value the format's image of the same source value. -/
 theorem C14_formats_agree_partial (zones : Bool) (fmt : Value → Str) (d' : Doc)
     (emit : Doc → Str) (parse : Str → Doc) (hrt : ∀ x, Doc.leaves (parse (emit x)) = Doc.leaves x)
-    (hs : noSections d' = true) (hd : noDupSiblings d' = true) (ho : mdOrdered d' = true) :
+    (hd : noDupSiblings d' = true) (ho : mdOrdered d' = true) :
     (docTree zones d').leaves = (Doc.leaves d').map (convLeaf zones)
       ∧ mdLeaves (mdLines fmt d') = (Doc.leaves d').map (mdLeaf fmt [])
       ∧ Doc.leaves (parse (emit d')) = Doc.leaves d'
       ∧ (docTree zones d').leaves.map Prod.fst = (mdLeaves (mdLines fmt d')).map Prod.fst := by
-  have h1 := docTree_leaves_eq zones d' hs hd
-  have h2 := mdLeaves_eq fmt d' hs ho
+  have h1 := docTree_leaves_eq zones d' hd
+  have h2 := mdLeaves_eq fmt d' ho
   refine ⟨h1, h2, hrt d', ?_⟩
   rw [h1, h2]
   simp [convLeaf, mdLeaf, List.map_map, Function.comp_def]
 
 /-- the guards hold for every projection of a document that meets them (any mode string) -/
-theorem C14_guards_preserved (mode : Str) (d : Doc)
-    (hs : noSections d = true) (hd : noDupSiblings d = true) (ho : mdOrdered d = true) :
-    noSections (project mode d).doc = true ∧ noDupSiblings (project mode d).doc = true ∧ mdOrdered (project mode d).doc = true := by
+theorem C14_guards_preserved (mode : Str) (d : Doc) (hd : noDupSiblings d = true) (ho : mdOrdered d = true) :
+    noDupSiblings (project mode d).doc = true ∧ mdOrdered (project mode d).doc = true := by
   simp only [project, applyRow]
   split
-  · exact ⟨hs, hd, ho⟩
-  · exact ⟨filterFields_noSections _ d hs, filterFields_noDup _ d hd, filterFields_mdOrdered _ d ho⟩
+  · exact ⟨hd, ho⟩
+  · exact ⟨filterFields_noDup _ d hd, filterFields_mdOrdered _ d ho⟩
 
 /-- … hence, with the guards on the SOURCE only: in every mode (lossy ones included) the JSON/YAML tree and the markdown
 scan of the projection contain exactly the projection's leaves, which are a sub-multiset of the source's. -/
 theorem C14_formats_agree_all_modes_partial (zones : Bool) (fmt : Value → Str) (mode : Str) (d : Doc)
-    (hs : noSections d = true) (hd : noDupSiblings d = true) (ho : mdOrdered d = true) :
+    (hd : noDupSiblings d = true) (ho : mdOrdered d = true) :
     (docTree zones (project mode d).doc).leaves = (Doc.leaves (project mode d).doc).map (convLeaf zones)
       ∧ mdLeaves (mdLines fmt (project mode d).doc) = (Doc.leaves (project mode d).doc).map (mdLeaf fmt [])
       ∧ (Doc.leaves (project mode d).doc).Sublist (Doc.leaves d) := by
-  obtain ⟨h1, h2, h3⟩ := C14_guards_preserved mode d hs hd ho
-  exact ⟨docTree_leaves_eq zones _ h1 h2, mdLeaves_eq fmt _ h1 h3, C14_no_invention_project mode d⟩
+  obtain ⟨h2, h3⟩ := C14_guards_preserved mode d hd ho
+  exact ⟨docTree_leaves_eq zones _ h2, mdLeaves_eq fmt _ h3, C14_no_invention_project mode d⟩
 
 /-! ## The CLI copy of the converters -/
 
@@ -225,16 +226,16 @@ theorem C14_cli_same_markdown (d : Doc) (h : scalarOnly d = true) :
 
 def s (x : String) : Str := x.toList
 
-/-- F24 witness `§1::S ⟨A::1⟩, B::2` -/
+/-- former F24 witness `§1::S ⟨A::1⟩, B::2` -/
 def wF24 : Doc := { name := s "DOC", sections := [.sect {} (s "1") (s "S") [.assign {} (s "A") (.int 1)], .assign {} (s "B") (.int 2)] }
-/-- F24: canonical mode says `lossy = false`, yet the leaf `S/A` is in neither dict (both copies) nor markdown -/
-theorem C14_KF_sections :
+/-- F24 is FIXED (ea3edea): the leaf `S/A` below the section marker is in both dict copies and in the markdown scan
+(instance of `C14_lossy_honest_partial` on a document with a Section node; kept as a regression fact). -/
+theorem C14_F24_fixed :
     (project (s "canonical") wF24).lossy = false
-    ∧ [s "S", s "A"] ∈ (Doc.leaves wF24).map Prod.fst
-    ∧ [s "S", s "A"] ∉ (docTree true (project (s "canonical") wF24).doc).leaves.map Prod.fst
-    ∧ [s "S", s "A"] ∉ (docTree false (project (s "canonical") wF24).doc).leaves.map Prod.fst
-    ∧ [s "S", s "A"] ∉ (mdLeaves (mdLines mdValue (project (s "canonical") wF24).doc)).map Prod.fst
-    ∧ noSections wF24 = false := by
+    ∧ (docTree true (project (s "canonical") wF24).doc).leaves.map Prod.fst = (Doc.leaves wF24).map Prod.fst
+    ∧ (docTree false (project (s "canonical") wF24).doc).leaves.map Prod.fst = (Doc.leaves wF24).map Prod.fst
+    ∧ (mdLeaves (mdLines mdValue (project (s "canonical") wF24).doc)).map Prod.fst = (Doc.leaves wF24).map Prod.fst
+    ∧ noSections wF24 = false ∧ noDupSiblings wF24 = true ∧ mdOrdered wF24 = true := by
   decide
 
 /-- F25 witness `B::2, B::3` -/
@@ -247,15 +248,14 @@ theorem C14_KF_duplicates :
     ∧ noDupSiblings wF25 = false := by
   decide
 
-/-- F33 witness `K::["x"∧REQ]` -/
+/-- former F33 witness `K::["x"∧REQ]` -/
 def wF33 : Doc := { name := s "DOC", sections := [.assign {} (s "K") (.holo (s "[\"x\"∧REQ]"))] }
-/-- F33, what is left of it after fix 45b8e9f (json/yaml now get the pattern text, `jsonable` holds): the markdown converters
-(both copies) still print the Python `repr` of the AST object — the text found at `K` is not the value's text. -/
-theorem C14_KF_holographic_markdown :
+/-- F33 is FIXED for the MCP copy (45b8e9f json/yaml, 80994f1 markdown): the pattern text everywhere.  The CLI markdown copy
+still prints the `repr` (bare f-string) — that remainder belongs to F51 (`C14_KF_cli_differs`). -/
+theorem C14_F33_fixed :
     jsonable (astToDict true wF33) = true ∧ jsonable (astToDict false wF33) = true
-    ∧ mdLeaves (mdLines mdValue wF33) = [([s "K"], [opaqueMark])]
-    ∧ mdLeaves (mdLines mdValueCli wF33) = [([s "K"], [opaqueMark])]
-    ∧ noHolo wF33 = false := by
+    ∧ mdLeaves (mdLines mdValue wF33) = [([s "K"], s "[\"x\"∧REQ]")]
+    ∧ mdLeaves (mdLines mdValueCli wF33) = [([s "K"], [opaqueMark])] := by
   decide
 
 /-- F50 witness `BLK: ⟨P::1, IN: ⟨Q::2⟩, R::3⟩` -/
@@ -300,11 +300,12 @@ def wOK : Doc := {
                .assign {} (s "L") (.list [.imap [(s "k", .int 1)], .str (s "x")]),
                .block {} (s "BLK") [.assign {} (s "RISKS") (.list [.str (s "r1")]), .assign {} (s "Z") (.zone (s "raw") (some (s "py")) (s "```")),
                                     .block {} (s "IN") [.assign {} (s "TESTS") (.bool true)]],
+               .sect {} (s "2") (s "SEC") [.assign {} (s "S1") (.int 1), .block {} (s "SB") [.assign {} (s "CI") (.str (s "yes"))]],
                .comment {} (s "note")] }
 
-example : noSections wOK = true ∧ noDupSiblings wOK = true ∧ mdOrdered wOK = true := by decide
+example : noDupSiblings wOK = true ∧ mdOrdered wOK = true := by decide
 example : (project (s "canonical") wOK).lossy = false := by decide
-example : (Doc.leaves (project (s "executive") wOK).doc).length = 3 ∧ (Doc.leaves wOK).length = 6 := by decide
+example : (Doc.leaves (project (s "executive") wOK).doc).length = 5 ∧ (Doc.leaves wOK).length = 8 := by decide
 example : (docTree true wOK).leaves.map Prod.fst = (Doc.leaves wOK).map Prod.fst := by decide
 example : (mdLeaves (mdLines mdValue wOK)).map Prod.fst = (Doc.leaves wOK).map Prod.fst := by decide
 example : noZones wF25 = true ∧ scalarOnly wF25 = true := by decide
